@@ -160,6 +160,7 @@ def run(prog, rep, tier, cfg):
     # ---- running totals (amounts, power, datacap) accumulated in loops keep their earlier contributions
     X.accumulator_integrity('K12', 'running-totals', [c for c in prog.crates if c.startswith('fil_actor')], 'running totals of amounts')
     X.no_dropped_results('K14', 'results-not-discarded', [c for c in prog.crates if c.startswith('fil_actor')], 'no Result of a call is discarded')
+    X.tolerated_failures('K15', 'tolerated-failures', [c for c in prog.crates if c.startswith('fil_actor')], 'tolerated failures are the reviewed ones')
 
 
 
